@@ -64,6 +64,8 @@ class MystWarnings(Enum):
     """Invalid attribute value."""
     SUBSTITUTION = "substitution"
     """Substitution could not be resolved."""
+    MATHJAX = "mathjax"
+    """The MathJax configuration is being overridden (``myst_update_mathjax``)."""
 
 
 def _is_suppressed_warning(
